@@ -119,6 +119,11 @@ func (r *Route) filter(skip func(t *Target) bool) {
 }
 
 func (r *Route) setWeight(service string, weight float64, tags []string) int {
+	// w <= 0 means no fixed weight: store it the same way addTarget does
+	if weight < 0 || math.IsNaN(weight) || math.IsInf(weight, 0) {
+		weight = 0
+	}
+
 	loop := func(w float64) int {
 		n := 0
 		for _, t := range r.Targets {
